@@ -3,7 +3,7 @@ From DT Require Import Model.Bytes Model.Value Model.Tree Model.Mods Model.Inter
 Local Open Scope Z_scope.
 
 Theorem C13_unknown_node_is_error : forall flits lookup budget inc t c w,
-  t <> 3 -> write_node flits lookup budget inc (NOther t) c w = Out (set_cerr None c) w (Some EUnknownCtl).
+  write_node flits lookup budget inc (NOther t) c w = Out (set_cerr None c) w (Some EUnknownCtl).
 Proof. exact unknown_node_is_error. Qed.
 Print Assumptions C13_unknown_node_is_error.
 
